@@ -612,7 +612,11 @@ func (s *Translator) buildInlineProjection(part *QueryPart) (pgsql.Select, error
 		// there was a projection between this CTE and the previous multipart query part
 		hasCTEs := part.Model.CommonTableExpressions != nil && len(part.Model.CommonTableExpressions.Expressions) > 0
 
-		if part.Frame.Previous == nil || hasCTEs {
+		if part.projections.Frame == part.Frame && part.Frame.Previous == nil {
+			// The projection was prepared while the part's own wrapper frame was current - a part that opens
+			// the query with UNWIND has no inner CTE. The wrapper frame is what this select defines; it cannot
+			// be its own row source. The rows come from the unwind sources appended below.
+		} else if part.Frame.Previous == nil || hasCTEs {
 			sqlSelect.From = []pgsql.FromClause{{
 				Source: part.projections.Frame.Binding.Identifier,
 			}}
